@@ -28,5 +28,12 @@ p!(c09_offers_n1_k2, 4, h::c09_offers_step::<1, 2, 2>());
 p!(c09_answer_n0, 4, h::c09_answer_step::<0, 1>());
 p!(c09_answer_n1, 4, h::c09_answer_step::<1, 2>());
 
+// C02: receiver selection; these need model capacity 8 and are run from the `kani-ws8`
+// registry entry (same crate directory, RUSTFLAGS without verif_cap2/verif_cap4).
+p!(c02_ws_extract_n0, 3, h::c02_ws_extract::<0>());
+p!(c02_ws_extract_n2, 5, h::c02_ws_extract::<2>());
+p!(c02_ws_extract_n4, 7, h::c02_ws_extract::<4>());
+p!(c02_ws_extract_n6, 9, h::c02_ws_extract::<6>());
+
 #[cfg(verif_pb_c08)]
 include!(env!("VERIF_PLAYBACK_FILE"));
